@@ -1,4 +1,5 @@
 import Varpulis.Lemmas.SaseMulti
+import Varpulis.Lemmas.SaseStack
 /-!
 # `A -> all B -> C` on arbitrary streams: several completions, eviction, leading `all` (C03 deepening)
 -/
@@ -157,6 +158,137 @@ theorem emitted_mid_stream (pa pe pp pc : Option Pred) (cfg : Cfg) (es : List Ev
     ∃ outs, emittedAll (nfaMid pa pe pp pc) cfg es = some outs ∧
       EachPerm outs (specRun pa pe pp pc cfg.lim [] 0 es) := by
   obtain ⟨s', outs, hrun, hall⟩ := runAll_multi pa pe pp pc cfg hp hk es {} [] [] rfl (List.Perm.refl _) (by simpa using hcap)
+  exact ⟨outs.map (·.emitted), by simp [emittedAll, hrun], hall⟩
+
+/-! ### backpressure (any strategy): runs are removed, never altered -/
+
+/-- the run loop on a non-C event: every open run advances on its own (no capacity premise) -/
+theorem processRuns_open (pa pe pp pc : Option Pred) (lim : Limits) (e : Ev) (os : List Open)
+    (hk : 1 ≤ lim.maxEvents) (h2 : e.ty ≠ 2) :
+    processRuns (nfaMid pa pe pp pc) lim e (os.map (Open.toRun pp)).length (os.map (Open.toRun pp)) 0 [] =
+      some ((os.map (Open.adv pe lim.maxEvents e)).map (Open.toRun pp), []) := by
+  have key : ∀ (fuel : Nat) (pre : List Run) (rest : List Open), rest.length ≤ fuel →
+      processRuns (nfaMid pa pe pp pc) lim e fuel (pre ++ rest.map (Open.toRun pp)) pre.length [] =
+        some (pre ++ (rest.map (Open.adv pe lim.maxEvents e)).map (Open.toRun pp), []) := by
+    intro fuel
+    induction fuel with
+    | zero =>
+      intro pre rest hlen
+      have : rest = [] := List.length_eq_zero_iff.mp (Nat.le_zero.mp hlen)
+      subst this; simp [processRuns]
+    | succ fuel ih =>
+      intro pre rest hlen
+      cases rest with
+      | nil => simp [processRuns]
+      | cons o rest =>
+        have hget : (pre ++ (o :: rest).map (Open.toRun pp))[pre.length]? = some (o.toRun pp) := by simp
+        have hset : ∀ r', (pre ++ (o :: rest).map (Open.toRun pp)).set pre.length r' = (pre ++ [r']) ++ rest.map (Open.toRun pp) := by
+          intro r'; simp [List.set_append]
+        have hlen' : rest.length ≤ fuel := by simp at hlen; omega
+        have hpl' : (pre ++ [(o.adv pe lim.maxEvents e).toRun pp]).length = pre.length + 1 := by simp
+        have := ih (pre ++ [(o.adv pe lim.maxEvents e).toRun pp]) rest hlen'
+        rw [hpl'] at this
+        simp only [processRuns, hget]
+        rcases adv_open pa pe pp pc lim e o h2 hk with ha | ha <;> simp only [ha, hset, this] <;> simp
+  have := key (os.map (Open.toRun pp)).length [] os (by simp)
+  simpa using this
+
+theorem exists_preimage {α β : Type} (f : α → β) (L : List α) : ∀ (l : List β), (∀ x ∈ l, x ∈ L.map f) →
+    ∃ l3 : List α, l = l3.map f ∧ ∀ x ∈ l3, x ∈ L := by
+  intro l
+  induction l with
+  | nil => intro _; exact ⟨[], rfl, by simp⟩
+  | cons b l ih =>
+    intro h
+    obtain ⟨a, ha, rfl⟩ := List.mem_map.mp (h b (by simp))
+    obtain ⟨l3, rfl, h3⟩ := ih (fun x hx => h x (List.mem_cons_of_mem _ hx))
+    exact ⟨a :: l3, rfl, by intro x hx; rcases List.mem_cons.mp hx with rfl | hx; exact ha; exact h3 x hx⟩
+
+/-- a non-C event under **any** backpressure strategy: nothing is emitted and every stored run is either an old run
+advanced on its own or the fresh run of this event — backpressure only removes runs, it never alters one -/
+theorem step_open_bp (pa pe pp pc : Option Pred) (cfg : Cfg) (s : Eng) (e : Ev) (os : List Open)
+    (hp : cfg.partitioned = false) (hk : 1 ≤ cfg.lim.maxEvents) (h2 : e.ty ≠ 2)
+    (hr : s.runs = os.map (Open.toRun pp)) :
+    ∃ (s' : Eng) (o : Out) (os' : List Open), step (nfaMid pa pe pp pc) cfg s e = some (s', o) ∧ o.emitted = [] ∧
+      s'.runs = os'.map (Open.toRun pp) ∧
+      (∀ x ∈ os', x ∈ os.map (Open.adv pe cfg.lim.maxEvents e) ++ (if accepts pa e then [Open.mk e [] s.nextSeq] else [])) ∧
+      s'.nextSeq = s.nextSeq + (if accepts pa e then 1 else 0) := by
+  have hproc2 := processRuns_open pa pe pp pc cfg.lim e os hk h2
+  have hst1 : ∀ seq, (nfaMid pa pe pp pc).states[(runAt1 e seq).cur]? =
+      some { ty := .normal, evTy := some 0, pred := pa, alias := some 0, trans := [2] } := by
+    intro seq; simp [nfaMid, runAt1]
+  by_cases hacc : accepts pa e = true
+  · -- whatever the strategy decides, the stored runs come from the advanced runs and the new run
+    have hmem := handleBp_mem cfg s.created s.dropped ((os.map (Open.adv pe cfg.lim.maxEvents e)).map (Open.toRun pp)) (runAt1 e s.nextSeq)
+    obtain ⟨os', hos', hsub⟩ := exists_preimage (Open.toRun pp)
+      (os.map (Open.adv pe cfg.lim.maxEvents e) ++ [Open.mk e [] s.nextSeq])
+      (handleBp cfg s.created s.dropped ((os.map (Open.adv pe cfg.lim.maxEvents e)).map (Open.toRun pp)) (runAt1 e s.nextSeq)).1
+      (by
+        intro x hx
+        rcases hmem x hx with h' | rfl
+        · simp only [List.map_append, List.mem_append]; left; exact h'
+        · simp [Open.toRun, runOf])
+    simp only [step, hp, hr, Bool.false_eq_true, if_false, Bool.false_and, hproc2, tryStart_mid, hacc, if_true, hst1]
+    refine ⟨_, _, os', rfl, rfl, ?_, by simpa [hacc] using hsub, ?_⟩
+    · cases (handleBp cfg s.created s.dropped ((os.map (Open.adv pe cfg.lim.maxEvents e)).map (Open.toRun pp)) (runAt1 e s.nextSeq)).2 <;> exact hos'
+    · cases (handleBp cfg s.created s.dropped ((os.map (Open.adv pe cfg.lim.maxEvents e)).map (Open.toRun pp)) (runAt1 e s.nextSeq)).2 <;> rfl
+  · simp only [step, hp, hr, Bool.false_eq_true, if_false, Bool.false_and, hproc2, tryStart_mid, hacc]
+    exact ⟨_, _, os.map (Open.adv pe cfg.lim.maxEvents e), rfl, rfl, rfl, by simp, by simp⟩
+
+/-- the output of a stream under backpressure, measured against the backpressure-free specification: a non-C event reports
+nothing; a C event reports, up to order, the own reports of a list of runs *all of which are open at that C in the
+backpressure-free run of the same stream* (`canon` follows `specStep`) -/
+def subSpec (pa pe pp pc : Option Pred) (lim : Limits) :
+    List (List (List Match)) → List Open → Nat → List Ev → Prop
+  | [], _, _, [] => True
+  | g :: gs, canon, next, e :: es =>
+    (if e.ty = 2 then ∃ os : List Open, (∀ o ∈ os, o ∈ canon) ∧ g.Perm (os.flatMap (ownReport pp pc lim e)) else g = []) ∧
+    subSpec pa pe pp pc lim gs (specStep pa pe pp pc lim canon next e).1 (specStep pa pe pp pc lim canon next e).2.1 es
+  | _, _, _, _ => False
+
+theorem runAll_bp (pa pe pp pc : Option Pred) (cfg : Cfg) (hp : cfg.partitioned = false) (hk : 1 ≤ cfg.lim.maxEvents) :
+    ∀ (es : List Ev) (s : Eng) (os canon : List Open), s.runs = os.map (Open.toRun pp) → (∀ o ∈ os, o ∈ canon) →
+      ∃ s' outs, runAll (nfaMid pa pe pp pc) cfg s es = some (s', outs) ∧
+        subSpec pa pe pp pc cfg.lim (outs.map (·.emitted)) canon s.nextSeq es := by
+  intro es
+  induction es with
+  | nil => intro s os canon _ _; exact ⟨s, [], rfl, trivial⟩
+  | cons e es ih =>
+    intro s os canon hr hsub
+    by_cases hC : e.ty = 2
+    · obtain ⟨s1, o1, os1, hstep, hem, hr1, hos1, hn1⟩ := step_close2 pa pe pp pc cfg s e os hp hC hr
+      have hsub1 : ∀ o ∈ os1, o ∈ canon.filter (survives pc e) := by
+        intro o ho
+        have := (hos1.mem_iff.mp ho)
+        rw [List.mem_filter] at this ⊢
+        exact ⟨hsub o this.1, this.2⟩
+      obtain ⟨s2, outs, hrun, hall⟩ := ih s1 os1 _ hr1 hsub1
+      refine ⟨s2, o1 :: outs, by simp [runAll, hstep, hrun], ?_⟩
+      simp only [List.map_cons, subSpec, hC, if_true]
+      refine ⟨⟨os, hsub, hem⟩, ?_⟩
+      rw [hn1] at hall
+      simpa [specStep, hC] using hall
+    · obtain ⟨s1, o1, os1, hstep, hem, hr1, hos1, hn1⟩ := step_open_bp pa pe pp pc cfg s e os hp hk hC hr
+      have hsub1 : ∀ o ∈ os1, o ∈ canon.map (Open.adv pe cfg.lim.maxEvents e) ++ (if accepts pa e then [Open.mk e [] s.nextSeq] else []) := by
+        intro o ho
+        rcases List.mem_append.mp (hos1 o ho) with h' | h'
+        · obtain ⟨o0, ho0, rfl⟩ := List.mem_map.mp h'
+          exact List.mem_append.mpr (Or.inl (List.mem_map.mpr ⟨o0, hsub o0 ho0, rfl⟩))
+        · exact List.mem_append.mpr (Or.inr h')
+      obtain ⟨s2, outs, hrun, hall⟩ := ih s1 os1 _ hr1 hsub1
+      refine ⟨s2, o1 :: outs, by simp [runAll, hstep, hrun], ?_⟩
+      simp only [List.map_cons, subSpec, hC, if_false]
+      refine ⟨hem, ?_⟩
+      rw [hn1] at hall
+      simpa [specStep, hC] using hall
+
+/-- **eviction / dropping does not contaminate runs**: for every backpressure strategy and every `max_runs`, on an arbitrary
+stream, processing does not panic, nothing is reported at non-C events, and every group reported at a C is the own report
+of a run that is open at that C in the backpressure-free run of the same stream -/
+theorem emitted_mid_bp (pa pe pp pc : Option Pred) (cfg : Cfg) (es : List Ev)
+    (hp : cfg.partitioned = false) (hk : 1 ≤ cfg.lim.maxEvents) :
+    ∃ outs, emittedAll (nfaMid pa pe pp pc) cfg es = some outs ∧ subSpec pa pe pp pc cfg.lim outs [] 0 es := by
+  obtain ⟨s', outs, hrun, hall⟩ := runAll_bp pa pe pp pc cfg hp hk es {} [] [] rfl (by simp)
   exact ⟨outs.map (·.emitted), by simp [emittedAll, hrun], hall⟩
 
 end Varpulis.SaseB
